@@ -537,5 +537,6 @@ RefinesAbs == Abs!SafeSpec
 AbsLive == Abs!EveryJobEnds /\ Abs!LeavesResizing
 
 \* ---- behaviour generation
-Emit == (Depth > 0 /\ Len(hist) = Depth /\ Settled) => PrintT(<<"BEH", ToJson(hist)>>)
+\* a behaviour is emitted when it has Depth recorded steps, or earlier when nothing more can happen
+Emit == (Depth > 0 /\ Settled /\ hist # << >> /\ (Len(hist) = Depth \/ ~ENABLED Next)) => PrintT(<<"BEH", ToJson(hist)>>)
 =============================================================================
